@@ -7,6 +7,7 @@ package main
 
 import (
 	"fmt"
+	"strings"
 	"time"
 
 	"verif/engine"
@@ -95,11 +96,27 @@ func scenarios(tier string) []engine.Scenario {
 	}
 	scs = append(scs, ckksScenarios(tier, shapes, bound)...)
 	scs = append(scs, historyScenarios(tier)...)
+	scs = append(scs, pbHistoryScenarios(tier)...)
 	scs = append(scs, bignumScenarios(tier)...)
 	scs = append(scs, compositeScenarios(tier)...)
 	scs = append(scs, mod1Scenarios(tier)...)
 	scs = append(scs, inverseScenarios(tier)...)
-	return scs
+	// the small families first, so that an internal deadline on a loaded machine cannot cut them off
+	var first, rest []engine.Scenario
+	for _, sc := range scs {
+		small := false
+		for _, pre := range []string{"vector-validation", "vector-history/", "power-basis-history/", "mixed-declared-parity/", "known-class/", "mod1/", "composite/", "bignum/"} {
+			if strings.HasPrefix(sc.Name, pre) {
+				small = true
+			}
+		}
+		if small {
+			first = append(first, sc)
+		} else {
+			rest = append(rest, sc)
+		}
+	}
+	return append(first, rest...)
 }
 
 func main() {
@@ -145,6 +162,7 @@ func expect(tier string) []string {
 		e = append(e, "mod1="+l.name)
 	}
 	e = append(e, "mod1-length=2", "mod1-length=3", "mod1=ignored-field/DoubleAngle-with-sin")
+	e = append(e, "power-basis-history=bgv-standard", "power-basis-history=ckks-monomial", "power-basis-history=ckks-chebyshev[-1,1]")
 	e = append(e, "history=bgv-standard", "history=bgv-invariant", "history=ckks-monomial", "history=ckks-chebyshev[-1,1]")
 	for _, sq := range histSequences {
 		e = append(e, "history-sequence="+histSeqName(sq))
